@@ -5,7 +5,7 @@ from .. import engine as E
 from .. import catalogue as K
 from .. import tys as T
 
-THEOREMS = ["c14_first_report", "c14_ok_same", "c14_path_roundtrip", "c14_path_injective", "c14_rendered_report_is_true"]
+THEOREMS = ["c14_first_report", "c14_ok_same", "c14_path_roundtrip", "c14_path_injective", "c14_rendered_report_is_true", "c14_path_qp_roundtrip"]
 
 
 def float_bits(p, acc):
